@@ -250,7 +250,7 @@ Definition run_input (f : features) (now : Z) (s : state) (i : input) : outcome 
            | (s1, Some t) => Done (upsert_tx_accounts f now s1 t amd) (PNewTx t amd)
            end
     end
-  | IRevert id force at_eff =>
+  | IRevert id force at_eff rmeta =>
     match find_tx (s_txs s) id with
     | None => Failed s ENotFound
     | Some t =>
@@ -265,7 +265,7 @@ Definition run_input (f : features) (now : Z) (s : state) (i : input) : outcome 
         | RCPanic => Panicked
         | RCInsufficient => Failed s1 EInsufficientFunds
         | RCOk =>
-          let rmd := [(reverts_key, string_of_Z id)] in
+          let rmd := mmerge rmeta [(reverts_key, string_of_Z id)] in   (* MarkReverts: caller metadata, then the mark *)
           match commit_transaction f now s1 (reverse_postings (t_postings t)) rmd (Some (if at_eff then t_ts t else now)) ""%string with
           | (s2, None) => Failed s2 EReferenceConflict
           | (s2, Some r) => Done s2 (PRevert t' r)
